@@ -8,6 +8,7 @@ import sympy as sp
 
 from .. import terms as TM
 from ..absint import Interp, Unsupported, _Builtin
+from .common import public_functional
 from ..core import AnalysisError, Report, Repo
 from ..schemas import O, P, dim, hyper
 from ..values import BOTTOM, ClassV, ExtV, FuncV, Gamma, Obj, T, TV, fmt
@@ -126,7 +127,7 @@ def check(report: Report, repo: Repo) -> None:
     report.explanation = "abstract interpretation of _modules.py with symbolic constructor options; option-forwarding relation module -> functional decided on call bindings"
     report.assumptions += ["torch.nn constructors store each argument under the same-named attribute (table TORCH_BASES)", "numerical equality with the torch.nn twin follows from C01 given R1-R3"]
 
-    fopq = lambda f: (isinstance(f, FuncV) and (f.module.name == "unit_scaling.functional" or f.qualname == "Parameter"))
+    fopq = lambda f: (public_functional(f) or (isinstance(f, FuncV) and f.qualname == "Parameter"))
     n_cls = 0
     for cname, fname in LEAF.items():
         it = Interp(repo, opaque=fopq)
@@ -316,7 +317,7 @@ def check(report: Report, repo: Repo) -> None:
     check_depth_containers(report, repo, "R6-depth")
 
     # ---------------------------------------------------------------- composite modules
-    copq = lambda f: (isinstance(f, FuncV) and f.module.name == "unit_scaling.functional") or (isinstance(f, ClassV) and f.qualname in ("Linear", "MHSA", "MLP", "RMSNorm"))
+    copq = lambda f: public_functional(f) or (isinstance(f, ClassV) and f.qualname in ("Linear", "MHSA", "MLP", "RMSNorm"))
     it = Interp(repo, opaque=copq)
     it.super_hook = make_super_hook("torch.nn.Module")
     # MLP
